@@ -12,6 +12,8 @@ structure BState where
   srv : ChainSrv := {}
   sealSt : SealState := {}
   snapshotsKept : Bool := true     -- `local` never stores snapshots
+  created : List Nat := []         -- replica-level rounds: tasks created so far
+  nreps : Nat := 2
 
 def symId (tok : String) : Option Nat :=
   if tok == "nil" then some 0
@@ -33,6 +35,33 @@ def backendLine (s : BState) (line : String) : BState × List String :=
       let (srv', r) := s.srv.addVersion p b fresh
       ({ s with srv := srv' }, [match r with | .ok id => s!"ok {fmtSym id}" | .expected l => s!"exp {fmtSym l}"])
     | none => (s, ["bad-op"])
+  | ["FP", _, _] => (s, [])
+  | ["AV", _, p, b, res] =>
+    -- an interrupted add_version: the line says which of the two allowed outcomes the backend shows
+    match symId p with
+    | some p =>
+      if res == "!accepted" then
+        let fresh := s.srv.versions.length + 1
+        let (srv', r) := s.srv.addVersion p b fresh
+        ({ s with srv := srv' }, [match r with | .ok id => s!"interrupted accepted {fmtSym id}" | .expected _ => "interrupted accepted-but-not-acceptable"])
+      else if res == "!absent" then (s, ["interrupted absent"])
+      else (s, [s!"interrupted neither-accepted-nor-absent"])
+    | none => (s, ["bad-op"])
+  | ["AS", _, v, b, res] =>
+    match symId v with
+    | some v =>
+      if res == "!stored" then ({ s with srv := if s.snapshotsKept then s.srv.addSnapshot v b else s.srv }, ["interrupted stored"])
+      else if res == "!absent" then (s, ["interrupted absent"])
+      else (s, ["interrupted neither-stored-nor-absent"])
+    | none => (s, ["bad-op"])
+  | ["EP", r, _, k, "->", res] =>
+    match r.toNat?, k.toNat? with
+    | some r, some k => ({ s with created := s.created ++ [k], nreps := max s.nreps (r + 1) }, [s!"sync {res}"])
+    | _, _ => (s, ["bad-op"])
+  | ["EPEND"] =>
+    -- every task ever created, on every replica: an interrupted add_version loses and duplicates nothing
+    let ts := sortDedup (s.created.map fun k => s!"{k}:t{k}")
+    (s, (List.range s.nreps).map fun r => s!"rep {r} [{",".intercalate ts}]")
   | ["GC", _, p] =>
     match symId p with
     | some p =>
@@ -74,6 +103,8 @@ structure BJ where
   accepted : List (Nat × Nat × String) := []      -- (k, parent, bytes), oldest first
   snaps : List (Nat × String) := []               -- stored, oldest first
   fails : List String := []
+  epFirst : Option String := none
+  epCreated : List Nat := []
 
 def BJ.latest (j : BJ) : Nat := match j.accepted.getLast? with | some (k, _, _) => k | none => 0
 
@@ -96,6 +127,32 @@ def bjAnswer (j : BJ) (l : String) : BJ :=
       let j := if (symId lv) == some j.latest then j else j.fail s!"linear rejection-names-{lv}-latest-{fmtSym j.latest}"
       if j.accepted.isEmpty || p == j.latest then j.fail s!"linear rejected-child-of-latest-{fmtSym p}" else j
     | _, _ => j.fail s!"parse AV {l.take 60}"
+  | ["AV", _, p, b, _] =>
+    match symId p, ws with
+    | some p, ["interrupted", "accepted", v] =>
+      let k := (symId v).getD 0
+      let j := if j.accepted.isEmpty || p == j.latest then j
+               else j.fail s!"atomic interrupted-accepted-parent-{fmtSym p}-while-latest-{fmtSym j.latest}"
+      { j with accepted := j.accepted ++ [(k, p, b)] }
+    | some _, ["interrupted", "absent"] => j
+    | _, _ => j.fail s!"atomic {l.take 60}"
+  | ["AS", _, v, b, _] =>
+    match symId v, ws with
+    | some v, ["interrupted", "stored"] => { j with snaps := j.snaps ++ [(v, b)] }
+    | some _, ["interrupted", "absent"] => j
+    | _, _ => j.fail s!"atomic snapshot {l.take 60}"
+  | "EP" :: _ :: _ :: k :: _ =>
+    let j := { j with epCreated := j.epCreated ++ [k.toNat?.getD 0] }
+    if l == "sync ok" || l == "sync err" then j else j.fail s!"recover {l.take 60}"
+  | ["EPEND"] =>
+    if l.startsWith "rep " then
+      let body := (l.splitOn " ").getD 2 ""
+      let want := "[" ++ ",".intercalate (sortDedup (j.epCreated.map fun k => s!"{k}:t{k}")) ++ "]"
+      let j := if body == want then j else j.fail s!"recover tasks-lost-or-invented got={body.take 60} want={want.take 60}"
+      match j.epFirst with
+      | none => { j with epFirst := some body }
+      | some b0 => if b0 == body then j else j.fail s!"recover replicas-differ {b0.take 40} vs {body.take 40}"
+    else j.fail s!"recover {l.take 60}"
   | ["GC", _, p] =>
     match symId p with
     | some p =>
